@@ -1033,39 +1033,10 @@ func writePartContentWithS3(buf *bytes.Buffer, sharedDB *sql.DB, part map[string
 		return err
 	}
 
-	// If base64 encoding, ensure proper 76 char wrapping per RFC 2045
-	if enc, ok := part["content_transfer_encoding"].(string); ok && strings.EqualFold(strings.TrimSpace(enc), "base64") {
-		// Detect if already wrapped (any line length <= 78 and multiple lines)
-		lines := strings.Split(content, "\r\n")
-		alreadyWrapped := true
-		if len(lines) <= 1 {
-			alreadyWrapped = false
-		} else {
-			for _, l := range lines {
-				if len(l) > 0 && len(l) > 78 { // some lines too long
-					alreadyWrapped = false
-					break
-				}
-			}
-		}
-		if !alreadyWrapped {
-			// Remove any existing whitespace/newlines and re-wrap
-			raw := strings.ReplaceAll(content, "\r", "")
-			raw = strings.ReplaceAll(raw, "\n", "")
-			var wrapped strings.Builder
-			for i := 0; i < len(raw); i += 76 {
-				end := i + 76
-				if end > len(raw) {
-					end = len(raw)
-				}
-				if i > 0 {
-					wrapped.WriteString("\r\n")
-				}
-				wrapped.WriteString(raw[i:end])
-			}
-			content = wrapped.String()
-		}
-	}
+	// The content is written as it is stored, whatever its transfer encoding:
+	// BODY[n] returns the stored octets, and BODY[] and the sizes in
+	// BODYSTRUCTURE have to agree with it. (base64 text used to be re-wrapped
+	// at 76 columns here, which made them those of a different text.)
 
 	// The CRLF in front of the next boundary delimiter belongs to the
 	// delimiter, not to the part (RFC 2046 5.1.1): it is always written, also
